@@ -223,19 +223,21 @@ Lemma sw_mono n m h h' : (n <= m)%nat -> sw n h h' -> sw m h h'.
 Proof. intros L (A & B & C & D). repeat split; auto. intros k K. apply D. lia. Qed.
 
 (* ---- down ---- *)
-Lemma down_loop_spec : forall fuel h i n,
-  (n <= List.length h)%nat -> (n - i < fuel)%nat ->
-  (forall p c, (c < n)%nat -> child p c -> c <> i -> p <> i -> hv h p <= hv h c) ->
-  (forall g c, child g i -> child i c -> (c < n)%nat -> hv h g <= hv h c) ->
+(* [lo]: only pairs whose parent is at or after lo are considered (heap.Init works bottom-up;
+   everywhere else lo = 0) *)
+Lemma down_loop_spec : forall fuel h i n lo,
+  (n <= List.length h)%nat -> (n - i < fuel)%nat -> (lo <= i)%nat ->
+  (forall p c, (c < n)%nat -> child p c -> (lo <= p)%nat -> c <> i -> p <> i -> hv h p <= hv h c) ->
+  (forall g c, (lo <= g)%nat -> child g i -> child i c -> (c < n)%nat -> hv h g <= hv h c) ->
   exists h' i', hp_down_loop fuel h i n = Ok (h', i') /\ sw n h h' /\ (i <= i')%nat /\
     (i' = i -> h' = h) /\
-    (forall p c, (c < n)%nat -> child p c -> (c <> i \/ (i < i')%nat) -> hv h' p <= hv h' c).
+    (forall p c, (c < n)%nat -> child p c -> (lo <= p)%nat -> (c <> i \/ (i < i')%nat) -> hv h' p <= hv h' c).
 Proof.
-  induction fuel as [|fuel IH]; intros h i n Ln Lf A B; [lia|].
+  induction fuel as [|fuel IH]; intros h i n lo Ln Lf Llo A B; [lia|].
   cbn [hp_down_loop].
   destruct (Nat.leb_spec n (2 * i + 1)) as [Lj|Lj].
   { exists h, i. split; [reflexivity|]. split; [apply sw_refl|]. split; [lia|]. split; [reflexivity|].
-    intros p c Lc C [NE|]; [|lia]. apply A; auto. intros ->. unfold child in C. lia. }
+    intros p c Lc C Lp [NE|]; [|lia]. apply A; auto. intros ->. unfold child in C. lia. }
   (* the smaller child j *)
   set (j1 := (2 * i + 1)%nat) in *.
   assert (E21 : (if (j1 + 1 <? n)%nat then pq_Less h (j1 + 1) j1 else Ok false) =
@@ -256,32 +258,46 @@ Proof.
   rewrite Less_ok by lia. cbn [obind].
   destruct (Z.ltb_spec (hv h j) (hv h i)) as [Lt|Ge]; cbn [negb].
   2:{ exists h, i. split; [reflexivity|]. split; [apply sw_refl|]. split; [lia|]. split; [reflexivity|].
-      intros p c Lc C [NE|]; [|lia]. destruct (Nat.eq_dec p i) as [->|NEp]; [|apply A; auto].
+      intros p c Lc C Lp [NE|]; [|lia]. destruct (Nat.eq_dec p i) as [->|NEp]; [|apply A; auto].
       specialize (Jmin c C Lc). lia. }
   rewrite Swap_ok by lia. cbn [obind].
   assert (V : forall k, hv (swapped h i j) k = if Nat.eqb k j then hv h i else if Nat.eqb k i then hv h j else hv h k)
     by (intros k; apply hv_swapped; lia).
-  destruct (IH (swapped h i j) j n) as (h' & i' & E & S & Li & Same & O).
+  destruct (IH (swapped h i j) j n lo) as (h' & i' & E & S & Li & Same & O).
   - rewrite swapped_length. assumption.
   - lia.
-  - intros p c Lc C NEc NEp. rewrite !V.
+  - lia.
+  - intros p c Lc C Lp NEc NEp. rewrite !V.
     destruct (Nat.eqb_spec c j); [congruence|]. destruct (Nat.eqb_spec p j); [congruence|].
     destruct (Nat.eqb_spec c i) as [->|NEci].
     + (* (parent i, i): by (B) *)
-      destruct (Nat.eqb_spec p i); [unfold child in C; lia|]. apply (B p j C Cj Ljn).
+      destruct (Nat.eqb_spec p i); [unfold child in C; lia|]. apply (B p j Lp C Cj Ljn).
     + destruct (Nat.eqb_spec p i) as [->|NEpi]; [apply Jmin; assumption|]. apply A; assumption.
-  - intros g c Cg Cc Lc. rewrite !V.
+  - intros g c Lg Cg Cc Lc. rewrite !V.
     assert (g = i) as -> by (unfold child in *; lia).
     destruct (Nat.eqb_spec i j); [lia|]. rewrite Nat.eqb_refl.
     destruct (Nat.eqb_spec c j); [unfold child in Cc; lia|]. destruct (Nat.eqb_spec c i); [unfold child in Cc; lia|].
-    apply A; [assumption|assumption|unfold child in Cc; lia|lia].
+    apply A; [assumption|assumption|lia|unfold child in Cc; lia|lia].
   - exists h', i'. split; [assumption|]. split; [eapply sw_trans; [|eassumption]; apply sw_swapped; lia|].
     split; [lia|]. split; [lia|].
-    intros p c Lc C _. destruct (Nat.eq_dec c j) as [->|NEc]; [|apply O; auto].
+    intros p c Lc C Lp _. destruct (Nat.eq_dec c j) as [->|NEc]; [|apply O; auto].
     destruct (Nat.eq_dec i' j) as [->|NEi]; [|apply O; auto; right; lia].
     rewrite (Same eq_refl), !V.
     assert (p = i) as -> by (unfold child in *; lia).
     rewrite Nat.eqb_refl. destruct (Nat.eqb_spec i j); [lia|]. rewrite Nat.eqb_refl. lia.
+Qed.
+
+Lemma down_spec_lo h i n lo :
+  (n <= List.length h)%nat -> (lo <= i)%nat ->
+  (forall p c, (c < n)%nat -> child p c -> (lo <= p)%nat -> c <> i -> p <> i -> hv h p <= hv h c) ->
+  (forall g c, (lo <= g)%nat -> child g i -> child i c -> (c < n)%nat -> hv h g <= hv h c) ->
+  exists h' moved, hp_down h i n = Ok (h', moved) /\ sw n h h' /\ (moved = false -> h' = h) /\
+    (forall p c, (c < n)%nat -> child p c -> (lo <= p)%nat -> (c <> i \/ moved = true) -> hv h' p <= hv h' c).
+Proof.
+  intros Ln Llo A B. destruct (down_loop_spec (S n) h i n lo Ln ltac:(lia) Llo A B) as (h' & i' & E & S & Li & Same & O).
+  exists h', (i <? i')%nat. unfold hp_down. rewrite E. cbn. split; [reflexivity|]. split; [assumption|]. split.
+  - intros F. apply Nat.ltb_ge in F. apply Same. lia.
+  - intros p c Lc C Lp [NE|M]; apply O; auto. right. apply Nat.ltb_lt. assumption.
 Qed.
 
 Lemma down_spec h i n :
@@ -291,10 +307,12 @@ Lemma down_spec h i n :
   exists h' moved, hp_down h i n = Ok (h', moved) /\ sw n h h' /\ (moved = false -> h' = h) /\
     (forall p c, (c < n)%nat -> child p c -> (c <> i \/ moved = true) -> hv h' p <= hv h' c).
 Proof.
-  intros Ln A B. destruct (down_loop_spec (S n) h i n Ln ltac:(lia) A B) as (h' & i' & E & S & Li & Same & O).
-  exists h', (i <? i')%nat. unfold hp_down. rewrite E. cbn. split; [reflexivity|]. split; [assumption|]. split.
-  - intros F. apply Nat.ltb_ge in F. apply Same. lia.
-  - intros p c Lc C [NE|M]; apply O; auto. right. apply Nat.ltb_lt. assumption.
+  intros Ln A B.
+  destruct (down_spec_lo h i n 0 Ln ltac:(lia)) as (h' & moved & E & S & Same & O).
+  - intros p c Lc C _. apply A; assumption.
+  - intros g c _. apply B.
+  - exists h', moved. split; [assumption|]. split; [assumption|]. split; [assumption|].
+    intros p c Lc C D. apply O; auto. lia.
 Qed.
 
 (* ---- up ---- *)
@@ -636,4 +654,32 @@ Proof.
     destruct (pq_Pop_spec h3 n _ ltac:(lia) Last O3 (Ix3 I1)) as (EP & HI' & Pm).
     eexists. eexists. split; [exact EP|]. split; [assumption|]. split; [reflexivity|]. split; [reflexivity|].
     eapply perm_trans; [exact Pm|]. eapply perm_trans; [exact Pm3|]. apply swapped_perm; lia.
+Qed.
+
+(* ---- heap.Init: establishes the order from ANY slice with consistent index fields ---- *)
+Lemma init_loop_spec : forall cnt h n, n = List.length h ->
+  (forall p c, (c < n)%nat -> child p c -> (cnt <= p)%nat -> hv h p <= hv h c) ->
+  exists h', hp_init_loop cnt h n = Ok h' /\ sw n h h' /\ ordered h' n.
+Proof.
+  induction cnt as [|i IH]; intros h n Ln Inv0.
+  - exists h. split; [reflexivity|]. split; [apply sw_refl|]. intros p c Lc C. apply Inv0; [assumption|assumption|lia].
+  - cbn [hp_init_loop].
+    destruct (down_spec_lo h i n i ltac:(lia) (le_n _)) as (h1 & moved & E & S1 & _ & O1).
+    + intros p c Lc C Lp NEc NEp. apply Inv0; [assumption|assumption|lia].
+    + intros g c Lg Cg. unfold child in Cg. lia.
+    + rewrite E. cbn [obind fst].
+      destruct (IH h1 n) as (h' & E' & S' & O').
+      * destruct S1 as (L1 & _). congruence.
+      * intros p c Lc C Lp. apply O1; [assumption|assumption|assumption|]. left. unfold child in C. lia.
+      * exists h'. split; [assumption|]. split; [eapply sw_trans; eassumption|assumption].
+Qed.
+
+Lemma heap_Init_spec h : idx_ok h ->
+  exists h', heap_Init h = Ok h' /\ heap_inv h' /\ Permutation (map h_data h') (map h_data h) /\
+    List.length h' = List.length h.
+Proof.
+  intros I. unfold heap_Init, pq_Len.
+  destruct (init_loop_spec (List.length h / 2) h (List.length h) eq_refl) as (h' & E & (L & Pm & Ix & _) & O).
+  - intros p c Lc C Lp. unfold child in C. lia.
+  - exists h'. split; [assumption|]. split; [split; [rewrite L; assumption|auto]|]. split; assumption.
 Qed.
